@@ -433,7 +433,7 @@ Section C04B.
   Proof.
     intros (HDL & HB & _). destruct (dl_MWaitHead P root res spec S fr s HDL) as (S' & HDL' & Hemp). exists S'. split; [exact HDL'|]. clear HDL'.
     destruct HDL as (((Hr & Hf & HS & Ht & _) & _) & _). cbn in Hf, HB. subst fr. cbn [step c_mode c_frames c_st] in *.
-    destruct (computed root s) eqn:Hc; [cbn; auto|]. cbn [c_mode c_st]. split.
+    destruct (computed root s) eqn:Hc; [cbn; split; [apply (batch_ok_frame s); [exact HB|apply batches_drop_sb|apply cur_drop_sb|intros k0; apply sb_drop_sb_incl|apply kback_view; apply heap_drop_sb]|exact I]|]. cbn [c_mode c_st]. split.
     - apply (batch_ok_iframe s); [exact HB|reflexivity|apply iback_view; reflexivity].
     - intros d kind idx key a Hd. destruct (Hemp eq_refl d Hd).
   Qed.
@@ -442,7 +442,7 @@ Section C04B.
   Proof.
     intros (HDL & HB & _). split; [apply (dl_MAfterExec P HP); exact HDL|].
     destruct HDL as (((Hr & Hf & HS & Ht & _) & _) & _). cbn in Hf, HB. subst fr. cbn [step c_mode c_frames c_st].
-    destruct (computed root s); [cbn; auto|]. cbn. split; [apply batch_ok_continue_with_batch; exact HB|exact I].
+    destruct (computed root s); [cbn; split; [apply (batch_ok_frame s); [exact HB|apply batches_drop_sb|apply cur_drop_sb|intros k0; apply sb_drop_sb_incl|apply kback_view; apply heap_drop_sb]|exact I]|]. cbn. split; [apply batch_ok_continue_with_batch; exact HB|exact I].
   Qed.
 
   Lemma bl_MExecLoop spec S fr s : BL spec S (mkC MExecLoop fr s) -> exists S', BL spec S' (step P (mkC MExecLoop fr s)).
